@@ -85,6 +85,10 @@ Proof. exact no_events_for_unknown. Qed.
 Theorem C18_index_exact : forall s g, Reach s g -> ixinv s.
 Proof. exact index_exact. Qed.
 
+(** ... as the executable monitor (includes: no duplicate keys in the index, in the queue table, in any queue) *)
+Theorem C18_index_monitor : forall s g, Reach s g -> index_ok s = true.
+Proof. exact index_monitor. Qed.
+
 (** removing a queue cancels each of its active allocations exactly once and forgets them; a refused
     removal (running allocations, no --force) changes nothing *)
 Theorem C18_remove_queue : forall s g qi force s' outs q,
@@ -131,3 +135,4 @@ Print Assumptions C18_no_events_for_unknown.
 Print Assumptions C18_index_exact.
 Print Assumptions C18_remove_queue.
 Print Assumptions C18_state_monitor.
+Print Assumptions C18_index_monitor.
